@@ -188,12 +188,13 @@ invgen.ARG_DOMAIN["spin(uint256)"] = list(range(0, 7))
 invgen.ARG_DOMAIN["spind(uint256)"] = list(range(0, 7))
 
 
-def check_invariant(acc, fns, loop, depth):
-    desc = {"targets": [fns], "invariants": [[0, "s", "ne", k] for k in (1, 2, 3, 4, 5)], "filters": None}
+def check_invariant(acc, fns, loop, depth, order=(1, 2, 3, 4, 5)):
+    # `order`: the invariant test that runs first computes the frontier (and is the one whose warning is easiest to lose)
+    desc = {"targets": [fns], "invariants": [[0, "s", "ne", k] for k in order], "filters": None}
     P = invgen.Project(desc)
     sigs = P.invariant_sigs()
-    name = f"inv:{fns}:loop={loop}:depth={depth}"
-    case = {"kind": "inv", "fns": fns, "loop": loop, "depth": depth}
+    name = f"inv:{fns}:loop={loop}:depth={depth}:first={order[0]}"
+    case = {"kind": "inv", "fns": fns, "loop": loop, "depth": depth, "order": list(order)}
     rr = e2e.run_contract(P.test, funsigs=sigs, options={"invariant_depth": depth, "loop": loop, "solver_timeout_assertion": "10s"}, others=P.targets)
     acc.count("contracts")
     if rr.exception is not None or len(rr.results) != len(sigs):
@@ -208,6 +209,8 @@ def check_invariant(acc, fns, loop, depth):
         acc.count("tests")
         bd = ref["broken"].get(k)
         broken = bd is not None and bd <= depth
+        # the warning must be given for *this* test (each invariant test relies on the same cut frontier)
+        loop_warned = any("loop unrolling bound" in m and sig.split("(")[0] in m for m in msgs)
         acc.outcome(("inv", r.exitcode, broken, loop_warned))
         if broken and r.exitcode == 0 and not loop_warned and not (r.num_bounded_loops or 0):
             acc.violation(f"silent-pass:{name}", f"{name}: invariant s != {desc['invariants'][k][3]} is broken by {bd} call(s) (reference) but halmos reports a clean PASS: the loop cut inside the target call is not reported (bounded loops {r.num_bounded_loops})", case)
@@ -267,13 +270,22 @@ def check_nested_stuck(acc, where, depth, kind):
     funcs = {"hop0()": [0x0C, "STOP"]}
     for d in range(1, depth):
         funcs[f"hop{d}()"] = e2e.cheat_call(e2e.TEST, f"hop{d - 1}()", kind=kind) + ["STOP"]
-    enter = e2e.cheat_call(e2e.TEST, f"hop{depth - 1}()", kind=kind)
+    if kind == "CREATE":
+        # the unsupported opcode sits in (depth 1) the init code itself / (deeper) a helper the init code calls; the creator ignores the result
+        from mc import asm as _asm
+
+        init = _asm.assemble([0x0C, "STOP"] if depth == 1 else e2e.cheat_call(e2e.TEST, f"hop{depth - 2}()") + ["STOP"])
+        enter = [("sizeof", "ini"), ("offsetof", "ini"), ("push", 0x300), "CODECOPY", ("sizeof", "ini"), ("push", 0x300), "PUSH0", "CREATE", "POP"]
+        datas = [("data", "ini", init)]
+    else:
+        enter = e2e.cheat_call(e2e.TEST, f"hop{depth - 1}()", kind=kind)
+        datas = []
     if where == "setup":
-        funcs["setUp()"] = enter + [("push", 1), "PUSH0", "SSTORE", "STOP"]
+        funcs["setUp()"] = enter + [("push", 1), "PUSH0", "SSTORE", "STOP"] + datas
         funcs["check_t(uint256)"] = e2e.if_then(["PUSH0", "SLOAD", ("push", 2), "EQ"], e2e.panic(1), "f") + ["STOP"]
     else:
         funcs["setUp()"] = ["STOP"]
-        funcs["check_t(uint256)"] = e2e.if_then(e2e.arg(0) + [("push", 7), "EQ"], enter, "a") + ["STOP"]
+        funcs["check_t(uint256)"] = e2e.if_then(e2e.arg(0) + [("push", 7), "EQ"], enter, "a") + ["STOP"] + datas
         funcs["check_ok(uint256)"] = ["STOP"]
     c = e2e.Contract("N", funcs)
     rr = e2e.run_contract(c, funsigs=[f for f in funcs if f.startswith("check_")], options={"loop": 2, "solver_timeout_assertion": "10s"})
@@ -317,6 +329,7 @@ def shards(tier, seed):
         for loop in (1, 2, 3, 6):
             for depth in ((1, 2) if tier == "quick" else (1, 2, 3)):
                 out.append({"kind": "inv", "fns": fns, "loop": loop, "depth": depth})
+                out.append({"kind": "inv", "fns": fns, "loop": loop, "depth": depth, "order": [5, 4, 3, 2, 1]})
     for N in (0, 3, 5):
         for loop in (1, 2, 3):
             out.append({"kind": "setup", "N": N, "loop": loop})
@@ -326,7 +339,7 @@ def shards(tier, seed):
         out.append({"kind": "setupsym", "loop": loop, "survivor": True})
     for where in ("setup", "test"):
         for depth in (1, 2, 3):
-            for kind in ("CALL", "STATICCALL"):
+            for kind in ("CALL", "STATICCALL", "CREATE"):
                 out.append({"kind": "nested", "where": where, "depth": depth, "call": kind})
     return rotate(out, seed)
 
@@ -338,7 +351,7 @@ def run_case(acc, s):
     elif k == "same":
         check_same_signature(acc, s["config"])
     elif k == "inv":
-        check_invariant(acc, s["fns"], s["loop"], s["depth"])
+        check_invariant(acc, s["fns"], s["loop"], s["depth"], tuple(s.get("order", (1, 2, 3, 4, 5))))
     elif k == "setup":
         check_setup(acc, s["N"], s["loop"])
     elif k == "nested":
